@@ -481,11 +481,17 @@ pub fn rename_menu(pkt: &[u8], seed: u64, n: usize) -> Option<String> {
 // ---------------------------------------------------------------------------------------------
 // C12 header setters: one event per initial flag word, vectors of (argument, result) inside
 
-fn hdr_packet(tid: u16, w: u16, xfl: Option<u16>) -> Vec<u8> {
-    let mut p = vec![(tid >> 8) as u8, tid as u8, (w >> 8) as u8, w as u8, 0, 1, 0, 0, 0, 0, 0, if xfl.is_some() { 1 } else { 0 }];
+/// question + optional opaque padding record (additional section) + optional OPT advertising `payload`
+fn hdr_packet(tid: u16, w: u16, xfl: Option<u16>, pad: usize, payload: u16) -> Vec<u8> {
+    let ar = (if xfl.is_some() { 1 } else { 0 }) + (if pad > 0 { 1 } else { 0 });
+    let mut p = vec![(tid >> 8) as u8, tid as u8, (w >> 8) as u8, w as u8, 0, 1, 0, 0, 0, 0, 0, ar];
     p.extend(&[1, b'h', 0, 0, 1, 0, 1]);
+    if pad > 0 {
+        p.extend(&[0, 0, 16, 0, 1, 0, 0, 0, 0, (pad >> 8) as u8, pad as u8]);
+        p.extend(vec![b'.'; pad]);
+    }
     if let Some(x) = xfl {
-        p.extend(&[0, 0, 41, 4, 208, 2, 1, (x >> 8) as u8, x as u8, 0, 0]);
+        p.extend(&[0, 0, 41, (payload >> 8) as u8, payload as u8, 2, 1, (x >> 8) as u8, x as u8, 0, 0]);
     }
     p
 }
@@ -494,7 +500,9 @@ pub fn header_event(v: &Value) -> String {
     let w = v["w"].as_u64().unwrap_or(0) as u16;
     let tid = v["tid"].as_u64().unwrap_or(0) as u16;
     let xfl = v["xfl"].as_i64().and_then(|x| if x < 0 { None } else { Some(x as u16) });
-    let base = hdr_packet(tid, w, xfl);
+    let pad = v["pad"].as_u64().unwrap_or(0) as usize;
+    let payload = v["payload"].as_u64().unwrap_or(1232) as u16;
+    let base = hdr_packet(tid, w, xfl, pad, payload);
     let fresh = || DNSSector::new(base.clone()).unwrap().parse();
     if fresh().is_err() {
         return format!("{{\"k\":\"hdr\",\"w\":{},\"res\":\"base-rejected\"}}", w);
@@ -582,7 +590,7 @@ pub fn header_event(v: &Value) -> String {
 /// for which set_flags(w, a) differs from set_flags(w, 0) | set_flags(0, a); with the tables
 /// f(w, 0) and f(0, a) validated by TLC this extends the validation to all pairs.
 pub fn decomposition_sweep(threads: usize) -> String {
-    let base = hdr_packet(0, 0, None);
+    let base = hdr_packet(0, 0, None, 0, 1232);
     let f = |pp: &mut ParsedPacket, w: u16, a: u32| -> u16 {
         {
             let p = pp.packet_mut();
@@ -675,14 +683,30 @@ pub fn nametext_event(text: &[u8], zone: &[u8]) -> String {
             Err(()) => rk = "panic",
         }
     }
+    // the appending form must not depend on what the output vector already holds: same verdict, prefix untouched,
+    // the same bytes appended
+    let mut app = vec![];
+    for k in [1usize, 2, 100, 250, 300] {
+        let mut v: Vec<u8> = (0..k).map(|i| (i * 7 + 3) as u8).collect();
+        let before = v.clone();
+        let r2 = guarded(|| dnssector::synth::r#gen::copy_raw_name_from_str(&mut v, text, z).map(|_| ()));
+        let ok = match (&r2, res) {
+            (Ok(Ok(())), "ok") => v.len() >= k && v[..k] == before[..] && v[k..] == wire[..],
+            (Ok(Err(_)), "err") => true,
+            (Err(()), "panic") => true,
+            _ => false,
+        };
+        app.push(ok);
+    }
     format!(
-        "{{\"k\":\"nametext\",\"text\":{},\"zone\":{},\"res\":\"{}\",\"wire\":{},\"rk\":\"{}\",\"rb\":{}}}",
+        "{{\"k\":\"nametext\",\"text\":{},\"zone\":{},\"res\":\"{}\",\"wire\":{},\"rk\":\"{}\",\"rb\":{},\"app\":{}}}",
         jbytes(text),
         jbytes(zone),
         res,
         jbytes(&wire),
         rk,
-        jbytes(&rb)
+        jbytes(&rb),
+        app.iter().all(|x| *x)
     )
 }
 
